@@ -345,7 +345,11 @@ def run(plan, ch, want_log=False):
     simtasks.reset()
     ginfo = None
     if "graph" in plan:
-        job, gref, ginfo = G.materialise(plan["graph"])
+        try:
+            job, gref, ginfo = G.materialise(plan["graph"])
+        except G.Refused:
+            return dict(harness=NAME, viol=[], probes={"lowering_refused_duplicate_names": 1}, fired={}, digest="refused", steps=0, simtime=0.0,
+                        stats={}, nontrivial={}, end="refused")
         jp = dict(tasks=[])
         simtasks.reset()
     else:
